@@ -73,7 +73,7 @@ func init() {
 		return func(fr *Frame, st *State, args []Val, rt types.Type) Val {
 			vc := fr.vc
 			p := args[0]
-			h := vc.get(st, vc.heapKey(KB))
+			h := vc.get(st, vc.heapKey(KM))
 			held := tSel2(h, p.S[0], p.S[1])
 			if fr.top && fr.contract != nil && !vc.quiet {
 				fr.callOrd["mutex:"+what]++
@@ -81,7 +81,7 @@ func init() {
 				vc.oblige(st, name, "requires", tEq(held, want), "mutex must "+map[Term]string{tFalse: "not be held", tTrue: "be held"}[want]+" before "+what)
 			}
 			vc.assume(st, tEq(held, want))
-			vc.set(st, vc.heapKey(KB), tSto2(h, p.S[0], p.S[1], set))
+			vc.set(st, vc.heapKey(KM), tSto2(h, p.S[0], p.S[1], set))
 			return Val{T: rt}
 		}
 	}
